@@ -10,7 +10,7 @@ cp $src/patch.diff $src/README.md $out/ || exit 2
 cp $src/*_test.go $out/ 2>/dev/null; for f in $src/*_test.go.txt; do [ -f "$f" ] && cp "$f" "$out/$(basename "${f%.txt}")"; done
 ls $src
 if [ -z "$dst" ]; then
-  dst=$(grep -oE '(tests|deploy|contracts/[a-z]+|rpc/[a-z]+|common)/[A-Za-z0-9_]+_test\.go' $src/README.md | head -1)
+  dst=$(grep -oE "(tests|deploy)/seed[A-Za-z0-9_]*_test\.go" $src/README.md | head -1)
   dst=${dst:-tests/seed_demo_test.go}
 fi
 echo "demo destination: $dst"
